@@ -59,14 +59,16 @@ func (w *c17World) inv(where string) {
 	}
 }
 
-func c17New(max int, idle time.Duration) *c17World {
+func c17New(max int, idle time.Duration) *c17World { return c17NewAllowed(max, idle, nil) }
+
+func c17NewAllowed(max int, idle time.Duration, allowed []string) *c17World {
 	vsched.SetQuiet(true)
 	defer vsched.SetQuiet(false)
 	w := &c17World{max: max, fs: recfs.New(), l: newSListener()}
 	w.fs.NoLog = true
 	c16Plant(w.fs)
 	w.fs.Mkdir("/d", 0755)
-	nfs, err := New(w.fs, ExportOptions{MaxConnections: max, IdleTimeout: idle, MaxWorkers: 2, AttrCacheTimeout: time.Hour,
+	nfs, err := New(w.fs, ExportOptions{AllowedIPs: allowed, MaxConnections: max, IdleTimeout: idle, MaxWorkers: 2, AttrCacheTimeout: time.Hour,
 		EnableDirCache: true, DirCacheTimeout: time.Hour, Timeouts: vLongTimeouts()})
 	vMust(err, "New")
 	nfs.logger = log.New(io.Discard, "", 0)
@@ -186,7 +188,20 @@ func c17ScenarioGated(name string, max int, kinds []string, stopEarly bool, gate
 			}
 		}
 		root := func() {
-			w = c17New(max, idle)
+			var allowed []string
+			for _, k := range kinds {
+				if k == "foreign-ip" {
+					allowed = []string{"10.0.0.0/28"} // clients 10.0.0.1.. are listed, 10.0.9.x are not
+				}
+			}
+			w = c17NewAllowed(max, idle, allowed)
+			nForeign := 0
+			for _, k := range kinds {
+				if k == "foreign-ip" {
+					nForeign++
+				}
+			}
+			foreignGone := vsched.NewChan[struct{}](len(kinds))
 			done := vsched.NewChan[struct{}](len(kinds))
 			replied := vsched.NewChan[struct{}](len(kinds))
 			for i, kind := range kinds {
@@ -194,7 +209,22 @@ func c17ScenarioGated(name string, max int, kinds []string, stopEarly bool, gate
 				vsched.GoNamed(fmt.Sprintf("client%d", i), func() {
 					defer done.SendNoPoint(struct{}{})
 					defer replied.SendNoPoint(struct{}{}) // whatever the outcome: the stopper's gate counts finished attempts
-					c := w.dial(fmt.Sprintf("10.0.0.%d", i+1))
+					if kind == "call-close-late" { // connects once every foreign client has been turned away
+						for k := 0; k < nForeign; k++ {
+							foreignGone.Recv()
+						}
+					}
+					ip := fmt.Sprintf("10.0.0.%d", i+1)
+					if kind == "foreign-ip" {
+						ip = fmt.Sprintf("10.0.9.%d", i+1) // not in AllowedIPs: refused at accept time
+					}
+					c := w.dial(ip)
+					if kind == "foreign-ip" {
+						c.reply() // wait until the server has closed it
+						outcome[fmt.Sprintf("c%d", i)] = "refused-by-ip-filter"
+						foreignGone.SendNoPoint(struct{}{})
+						return
+					}
 					if kind == "dial-close" {
 						c.closeClient()
 						outcome[fmt.Sprintf("c%d", i)] = "closed"
@@ -204,6 +234,17 @@ func c17ScenarioGated(name string, max int, kinds []string, stopEarly bool, gate
 					switch {
 					case !ok:
 						outcome[fmt.Sprintf("c%d", i)] = "refused"
+						if kind == "call-close-late" && !c.dataRead {
+							open := 0
+							for _, o := range w.conns {
+								if o != c && o.accepted && !o.closed {
+									open++
+								}
+							}
+							if open == 0 {
+								w.fail("listed-client-refused-although-no-connection-is-open", "a client inside AllowedIPs was turned away while no other connection was open (connCount=%d, MaxConnections=%d): connections refused by the address filter are still counted", w.srv.connCount, max)
+							}
+						}
 						if c.dataRead && !stopEarly {
 							dropped = append(dropped, i)
 						}
@@ -213,7 +254,7 @@ func c17ScenarioGated(name string, max int, kinds []string, stopEarly bool, gate
 					default:
 						outcome[fmt.Sprintf("c%d", i)] = "served"
 					}
-					if kind == "call-close" {
+					if kind == "call-close" || kind == "call-close-late" {
 						c.closeClient()
 					}
 				})
@@ -472,6 +513,8 @@ func c17Scenarios(thorough bool) []vScn {
 		c17Scenario("max1-2clients-stop", 1, []string{"call-idle", "call-close"}, true),
 		c17Scenario("max2-2clients-stop", 2, []string{"call-idle", "call-idle"}, true),
 		c17ScenarioGated("max2-2clients-stop-after-1-reply", 2, []string{"call-idle", "call-idle"}, true, 1),
+		// clients outside AllowedIPs are turned away at accept time: they must not stay counted
+		c17Scenario("max2-foreign-ips-then-listed-client", 2, []string{"foreign-ip", "foreign-ip", "call-close-late"}, false),
 	}
 	ops := []string{"Close", "Unexport", "Stop"}
 	for _, a := range ops {
